@@ -886,11 +886,11 @@ def verifystrict(ctx):
     connector; the side pairing itself is KIND-CMP's business.)"""
     from flow import bool_switch_targets
     from sym import Sym, show
-    from r_cand import _lin
+    from r_cand import _lin as _lin0
     crate = ctx.facts("A").lib
     E = Effects(crate)
     n = 0
-    from flow import result_exits
+    from flow import result_exits, reach_const
     import re as _re
     for p, f in sorted(crate.fns.items()):
         base_p = _re.sub(r"(::\{closure#\d+\})+$", "", strip_generics(p))
@@ -900,6 +900,21 @@ def verifystrict(ctx):
             continue
         fa = E.fa(p)
         S = Sym(E, fa)
+        # counts captured by a closure (`let n = conn.num_left(); ids.all(|p| p.left_id < n)`) read as
+        # what the enclosing function computed for them
+        caps = {}
+        par = f.j.get("closure_of")
+        if par and par in crate.fns and crate.fns[par].body:
+            pfa = E.fa(par)
+            PS = Sym(E, pfa)
+            for b0, i0, s0 in pfa.stmts():
+                rv0 = s0.get("rv") or {}
+                if rv0.get("k") == "agg" and rv0.get("agg") == "closure" and rv0.get("closure") == p:
+                    caps = {k: show(PS.operand(o)) for k, o in enumerate(rv0["ops"])}
+
+        def _lin(e, caps=caps):
+            t_, c_ = _lin0(e)
+            return _re.sub(r"arg1\.#(\d+)", lambda m: caps.get(int(m.group(1)), m.group(0)), t_), c_
         # a predicate written as a value (`id < count && ..` in a closure handed to all(), or the
         # last expression of a helper): the comparison's result is what is returned
         for vb, vi, vs in fa.stmts():
@@ -928,9 +943,20 @@ def verifystrict(ctx):
             (lt, lc), (rt, rc) = _lin(e[2]), _lin(e[3])
 
             def is_cnt(txt):
-                return "num_left(" in txt or "num_right(" in txt
+                return "num_left(" in txt or "num_right(" in txt or (is_matrix and "parse_header" in txt)
             if is_cnt(lt) == is_cnt(rt):
                 continue
+            if is_matrix:
+                # the parser's outcome is Ok/Err, not the value itself: the value `false` must not
+                # reach a successful return (`(a < n && b < m).then_some(i).ok_or_else(..)?`)
+                ok_b0, _e0, _ = result_exits(fa)
+                if reach_const(fa, vb, env0={vs["lhs"]["l"]: 0}, after_stmt=vi) & ok_b0:
+                    n += 1
+                    ctx.ob("VERIFYSTRICT", "%s|value-cmp|rejects" % base_p, False, fa.loc(vb, vi),
+                           "the matrix parser computes %s %s %s but the outcome `false` still reaches a "
+                           "successful return: an id outside the header's counts is stored"
+                           % (show(e[2]), rv["op"], show(e[3])))
+                    continue
             cnt_left = is_cnt(lt)
             # the value `true` is the accepting outcome: out of range  <=>  NOT(expr)
             neg = {"Lt": "Ge", "Le": "Gt", "Gt": "Le", "Ge": "Lt"}[rv["op"]]
@@ -995,7 +1021,7 @@ def verifystrict(ctx):
             else:             # id + lc OP count + rc  ->  count - id OP' lc - rc
                 kk = lc - rc if opn == "Ge" else lc - rc - 1 if opn == "Gt" else None
             # ... and from that edge no accepting exit is reachable except through a rejection
-            rest = fa.reachable(oor_t, avoid=false_blocks) if oor_t not in false_blocks else set()
+            rest = reach_const(fa, oor_t, avoid=false_blocks) if oor_t not in false_blocks else set()
             if is_matrix:
                 escapes = bool(rest & ok_b)
             else:
@@ -1019,3 +1045,26 @@ def verifystrict(ctx):
                    "tokenization" % ("::".join(p.split("::")[-2:]), kk, show(e[2]), e[1], show(e[3])))
             k_ += 1
     ctx.floor("VERIFYSTRICT", "id-range comparisons in verify() and the matrix parser", n, 6)
+    # MATRIXLINES: every line after the header is looked at. A blank line is skipped (filter / if),
+    # it does not end the table: an adaptor that truncates the line iterator leaves the rows behind
+    # the first blank line at cost 0.
+    from r_rewrite import _chain_to_source
+    mp = [p for p in crate.fns if strip_generics(p).endswith("matrix_connector::MatrixConnector::from_reader")]
+    m = 0
+    for p in mp:
+        fa = E.fa(p)
+        for b, t in fa.calls():
+            nm = {strip_generics(x).rsplit("::", 1)[-1] for x in callee_paths(t)}
+            if "next" not in nm or not t["args"] or not any(b in fa.reachable(x) for x in fa.succs(b)):
+                continue
+            ch = _chain_to_source(fa, t["args"][0])
+            if "lines" not in ch:
+                continue
+            m += 1
+            cut = [c for c in ch if c in ("take_while", "map_while", "take", "skip", "skip_while", "step_by", "scan",
+                                          "nth", "last", "rev", "peekable_take", "chunks", "zip")]
+            ctx.ob("MATRIXLINES", "%s|all-lines" % p, not cut, fa.loc(b),
+                   "every line of matrix.def after the header is read (%s)" % " <- ".join(ch) if not cut else
+                   "the lines of matrix.def are read through %s: reading stops (or thins) before the end of "
+                   "the file, and the entries that are not read keep cost 0" % ", ".join(cut))
+    ctx.floor("MATRIXLINES", "line loops of the matrix parser", m, 1)
